@@ -10,7 +10,9 @@ MODELS = {
 
 CONTRACTS = {
  'LogicalRecordBytes.make_segment': dict(
-    props=['C01', 'C02', 'C15'],
+    props=['C01', 'C02', 'C15', 'C16'],
+    # the receiver is built by the real LogicalRecordBytes.__init__; helper objects it may keep are in an arbitrary state
+    self_from_init={'bts': 'bytes', 'lr_type_struct': 'bytes', 'is_eflr': 'bool'},
     params={'start_pos': 'int', 'n_bytes': 'int?'},
     requires=['0 <= start_pos', 'start_pos <= self._size', 'n_bytes is None or 0 <= n_bytes'],
     returns='tuple[bytes,int]',
@@ -41,7 +43,7 @@ CONTRACTS = {
     ensures=['len(result) == len(body) + 4', 'result[0] * 256 + result[1] == len(body) + 4', 'result[2] == 255', 'result[3] == 1', 'result[4:] == body'],
  ),
  'LogicalRecordBytes.make_segments': dict(
-    props=['C02', 'C15', 'C01'],
+    props=['C02', 'C15', 'C01', 'C16'],
     params={'max_n_bytes': 'int'},
     requires=['max_n_bytes % 2 == 0', 'max_n_bytes <= 16376'],
     returns='none', yields='tuple[bytes,int]',
